@@ -28,10 +28,13 @@ var raceLogOnly = map[string]bool{
 func Main() {
 	r := core.Start("C17", "exploration")
 	processSetup()
-	r.SetRule("sequential history = 50..400 operations (AddLocal(s)/AddRemotes/AddRemotesSync/AddRemote of valid, replacing, duplicate, underpriced, gapped, oversized, unaffordable, wrong-chain, negative, blacklisted transactions; ChainHeadEvents and silent head changes with mined blocks, forks, nonce/balance/gas-limit moves; SetGasPrice; journal reload; lifetime expiry) over 4 senders with limits 2/6/3/6, judged after every operation; non-trivial = at least one ChainHeadEvent was processed and at least 10 distinct transactions were accepted; concurrent history = 8 submitters + head producer + price changer, non-trivial = at least 20 accepted transactions and one processed head event; distinct by case index")
+	r.SetRule("sequential history = 50..400 operations (AddLocal(s)/AddRemotes/AddRemotesSync/AddRemote of valid, replacing, duplicate, underpriced, gapped, oversized, multi-slot (payloads up to 128 KB: 1..4 slots, also right at the slot boundaries), unaffordable, wrong-chain, negative, blacklisted transactions; ChainHeadEvents and silent head changes with mined blocks, forks, nonce/balance/gas-limit moves; SetGasPrice; journal reload; lifetime expiry) over 4 senders, limits 2/6/3/6 in three histories of four and 2/4/2/4, 4/10/4/8 or 1/4/3/3 otherwise, locals disabled in one history of nine; about 3 % of the operations start a directed episode whose steps are built from the pool's state when they run: 'role switch' (0..3 submissions of other remote senders, 1..3 remote transactions of a sender that has never been local, its first AddLocal(s) - next nonce, gapped, or replacing one of its pending/queued transactions -, then a SetGasPrice raise above its prices and/or floods of better-paying remote transactions into the full pool) and 'near full' (fill the pool up to 0..3 slots below GlobalSlots+GlobalQueue, then a transaction of 2..4 slots, cheaper than, as cheap as or dearer than what is there, through any entry point); judged after every operation; non-trivial = at least one ChainHeadEvent was processed and at least 10 distinct transactions were accepted; concurrent history = 8 submitters + head producer + price changer, non-trivial = at least 20 accepted transactions and one processed head event; distinct by case index")
 	r.Extra("race_keys_excluded_by_rule", map[string]string{
 		"mainchain/tx_pool.(*txPricedList).Reheap|mainchain/tx_pool.NewTxPool.gowrap2": "plain store of priced.stales under the pool lock vs atomic load in the loop's stats report; the value only feeds a debug log line"})
-	r.Assume("limit invariants are evaluated at the reorg fixpoint (two idle reorg runs), structural invariants after every call; local = member of pool.Locals()")
+	r.Assume("per-account and per-list limit invariants are evaluated at the reorg fixpoint (two idle reorg runs), structural invariants and the slot limit after every call; local = member of pool.Locals()")
+	r.Assume("slot limit: the slots of all pooled transactions (one per started 32 KB of the encoded transaction) never exceed GlobalSlots+GlobalQueue, except that a pool above the limit may hold exempt transactions only (a local submission is admitted by force after every non-exempt transaction has been discarded); exempt = sender in pool.Locals(), or the transaction itself flagged local in the pool's index (a local submission that replaced a pending transaction does not record its sender as local)")
+	r.Assume("admission into a pool without room is judged strictly for the first such submission since the last reorg run, outside expiry histories: local = never refused for its price nor as pool-full; remote paying no more than the cheapest non-exempt transaction = refused as underpriced; remote needing more slots than all non-exempt transactions hold = refused as pool-full; otherwise room is made and the submission is judged like one into a pool with room (the occupant of its nonce slot may have been discarded). Later submissions of the same call only have to be explainable (which of several equally cheap transactions were discarded is out of the model's reach)")
+	r.Assume("the sequential observer is the read-only hook VerifView; the re-heaping hook VerifSnapshot is used in one history of six and once at the end of every history, so that stale entries of the price heap live as long as they do in production")
 	// development aid only: C17_GROUPS=corpus,history restricts the groups that run
 	// (floors of skipped groups then make the run inconclusive, as they should)
 	want := func(g string) bool {
@@ -101,6 +104,29 @@ func Main() {
 	r.Floor("rejected:known", 50)
 	r.Floor("rejected:invalid-sender", 100)
 	r.Floor("rejected:oversized", 50)
+	// senders that change role, price events after the change
+	r.Floor("role_switches", 250)
+	r.Floor("role_switches_with_remote_txs_in_pool", 100)
+	r.Floor("migrated_txs", 200)
+	r.Floor("price_raises_over_migrated_txs", 50)
+	r.Floor("price_raises_migrated_txs_spared", 80)
+	r.Floor("full_pool_arrivals_with_migrated_txs_in_pool", 400)
+	r.Floor("full_pool_arrivals_migrated_tx_is_cheapest", 200)
+	r.Floor("histories_locals_disabled", 10)
+	r.Floor("op:add:local:locals_disabled", 100)
+	// multi-slot transactions, pools at and next to their slot limit
+	r.Floor("multislot_valid_submissions", 1000)
+	r.Floor("multislot_accepted", 500)
+	r.Floor("multislot_arrivals_pool_almost_full", 120)
+	r.Floor("multislot_almost_full_refused_underpriced", 30)
+	r.Floor("multislot_almost_full_room_made", 50)
+	r.Floor("txs_sized_exactly_at_slot_boundary", 100)
+	r.Floor("full_pool_refused_underpriced", 150)
+	r.Floor("full_pool_refused_underpriced_multislot", 40)
+	r.Floor("full_pool_refused_no_room", 200)
+	r.Floor("full_pool_room_made", 200)
+	r.Floor("full_pool_local_forced", 1000)
+	r.Floor("obs_pool_exactly_at_slot_limit", 1500)
 	r.Floor("conc_accepted_txs", 100)
 	r.Floor("conc_head_events", 20)
 	r.Floor("blacklist_refreshes_ok", 1)
